@@ -446,3 +446,7 @@
 (define-fun inR ((k Real) (hasLo Bool) (lo Real) (hasHi Bool) (hi Real) (incl Bool)) Bool
   (and (or (not hasLo) (<= lo k)) (or (not hasHi) (< k hi) (and incl (= k hi)))))
 ;@specfn inR : Real Bool Real Bool Real Bool -> Bool
+
+; ---- pruning writes (ghost): number of deletes issued to the pruning batch, and the key of the last one
+;@ghost nprunes Int
+;@ghost lastpruned Slice
